@@ -11,7 +11,7 @@ Definition wants (c : cpc) : bool := match c with CLockAcq => true | _ => false 
 Definition not_before_mark (c : cpc) : bool :=
   match c with CSend | CLogoutWait | CLockReq | CLockAcq | CMark => false | _ => true end.
 Definition past_close (c : cpc) : bool :=
-  match c with CDone _ | KCancel | KTClose | KEnd => true | _ => false end.
+  match c with CUnreg | CDrain | CUnlock | CDone _ | KCancel | KTClose | KEnd => true | _ => false end.
 
 (* F: read locks held by goroutines outside the system that never release them (consumers parked in NextPackage with
    a live context) *)
@@ -51,10 +51,271 @@ Proof.
            | E : negb _ = true |- _ => apply negb_true_iff in E
            end;
     repeat split; try assumption; try lia; try congruence; try (intros; congruence); try (intros; lia); auto.
+  all: try (intros Hw; specialize (Hex Hw); lia).
+  all: try (specialize (Hex Hwh); destruct (rp s); cbn in *; auto; exfalso; lia).
   all: try (intros Hc; specialize (Hcl Hc); discriminate).
   all: try (intros Hw; rewrite Hw in *; discriminate).
   all: try (destruct (conn_done s); cbn; auto; try lia).
   all: try (destruct (mine && registered s); cbn; auto; try lia).
   all: try (destruct (closed s); cbn; auto; try lia; try congruence).
   all: try (destruct (kind0 s); cbn; auto; try lia; try congruence).
+Qed.
+
+Lemma inv_exec : forall F ls s, inv F s -> inv F (exec s ls).
+Proof.
+  intros F ls. induction ls as [|l r IH]; intros s H; [exact H|].
+  change (exec s (l :: r)) with (exec (exec1 s l) r). apply IH. unfold exec1. destruct (step s l) as [s'|] eqn:E; [exact (inv_step F s l s' H E) | exact H].
+Qed.
+
+(* ------------------------------------------------------------------ room in the package queue *)
+
+Definition ritems (r : rpc) : Z :=
+  match r with RRoute _ l | RLockCh l | RChk l | RHold l => zlen l | _ => 0 end.
+Fixpoint initems (l : list rin) : Z :=
+  match l with [] => 0 | RinPkt _ it :: r => zlen it + initems r | RinFail :: r => initems r end.
+Definition pending (s : sys) : Z :=
+  zlen (pq s) + ritems (rp s) + initems (incoming s) + (if reply s then 1 else 0).
+(* every package that is queued, in the reader's hands, on the wire or still to be sent by the peer fits the queue *)
+Definition room (s : sys) : Prop := pending s <= pcap s.
+
+Lemma initems_app : forall a b, initems (a ++ b) = initems a + initems b.
+Proof.
+  intros a b. induction a as [|x r IH]; [reflexivity|]. cbn [app initems]. destruct x as [m it|]; rewrite IH; lia.
+Qed.
+
+Lemma initems_nonneg : forall l, 0 <= initems l.
+Proof.
+  intros l. induction l as [|x r IH]; [cbn; lia|]. cbn [initems]. destruct x as [m it|]; [pose proof (zlen_nonneg it); lia | exact IH].
+Qed.
+
+Lemma pending_step : forall s l s', step s l = Some s' -> pending s' <= pending s /\ pcap s' = pcap s.
+Proof.
+  intros s l s' H.
+  destruct l; unfold step, reader_step, closer_step, set_r, set_c in H; crunch H;
+    unfold pending; cbn [pq rp incoming reply pcap ritems initems];
+    repeat match goal with
+           | E : rp s = _ |- _ => rewrite E in *
+           | E : incoming s = _ |- _ => rewrite E in *
+           | E : pq s = _ |- _ => rewrite E in *
+           | E : reply s = _ |- _ => rewrite E in *
+           end;
+    cbn [ritems initems];
+    rewrite ?zlen_app, ?zlen_cons, ?zlen_nil, ?initems_app; cbn [initems];
+    rewrite ?zlen_cons, ?zlen_nil;
+    try (split; [|reflexivity]);
+    repeat match goal with
+           | |- context [if ?b then _ else _] => destruct b
+           end;
+    cbn [ritems];
+    repeat match goal with
+           | |- context [zlen ?l] => lazymatch goal with
+                                     | H0 : 0 <= zlen l |- _ => fail
+                                     | _ => pose proof (zlen_nonneg l)
+                                     end
+           end;
+    try lia.
+Qed.
+
+Lemma room_exec : forall ls s, room s -> room (exec s ls) /\ pcap (exec s ls) = pcap s.
+Proof.
+  intros ls. induction ls as [|l r IH]; intros s H; [split; [exact H | reflexivity]|].
+  change (exec s (l :: r)) with (exec (exec1 s l) r). unfold exec1. destruct (step s l) as [s'|] eqn:E.
+  - destruct (pending_step s l s' E) as [H1 H2].
+    assert (Hr : room s') by (unfold room in *; lia).
+    destruct (IH s' Hr) as [H3 H4]. split; [exact H3 | rewrite H4; exact H2].
+  - exact (IH s H).
+Qed.
+
+(* ------------------------------------------------------------------ the termination measure *)
+
+Definition rrank (r : rpc) : Z :=
+  match r with
+  | RRoute _ _ => 16 | RLockCh _ => 12 | RChk _ => 10 | RHold _ => 8 | RUnlock => 6
+  | RTop => 4 | RRead => 2 | RPushErr => 1 | REnd => 0
+  end.
+Definition crank (c : cpc) : Z :=
+  match c with
+  | CStart => 12 | CSend => 11 | CLogoutWait => 10 | CLockReq => 9 | CLockAcq => 8 | CMark => 7 | CUnreg => 6
+  | CDrain => 5 | CUnlock => 4 | CDone _ => 3 | KCancel => 2 | KTClose => 1 | KEnd => 0
+  end.
+Fixpoint inweight (l : list rin) : Z :=
+  match l with [] => 0 | RinPkt _ it :: r => 16 + zlen it + inweight r | RinFail :: r => 16 + inweight r end.
+Definition measure (s : sys) : Z :=
+  4 * (ccap s - cerr s) + inweight (incoming s) + ritems (rp s) + rrank (rp s) + 5 * crank (cp s) +
+  (if reply s then 40 else 0).
+
+Lemma inweight_app : forall a b, inweight (a ++ b) = inweight a + inweight b.
+Proof.
+  intros a b. induction a as [|x r IH]; [reflexivity|]. cbn [app inweight]. destruct x as [m it|]; rewrite IH; lia.
+Qed.
+
+Lemma inweight_nonneg : forall l, 0 <= inweight l.
+Proof.
+  intros l. induction l as [|x r IH]; [cbn; lia|]. cbn [inweight]. destruct x as [m it|]; [pose proof (zlen_nonneg it); lia | lia].
+Qed.
+
+(* every move of anybody strictly decreases the measure *)
+Lemma measure_step : forall s l s', step s l = Some s' -> measure s' < measure s.
+Proof.
+  intros s l s' H.
+  destruct l; unfold step, reader_step, closer_step, set_r, set_c in H; crunch H;
+    unfold measure; cbn [pq rp cp incoming reply ccap cerr];
+    repeat match goal with
+           | E : rp s = _ |- _ => rewrite E in *
+           | E : cp s = _ |- _ => rewrite E in *
+           | E : incoming s = _ |- _ => rewrite E in *
+           | E : reply s = _ |- _ => rewrite E in *
+           end;
+    cbn [ritems rrank crank inweight];
+    rewrite ?inweight_app; cbn [inweight];
+    rewrite ?zlen_cons, ?zlen_nil;
+    repeat match goal with
+           | |- context [if ?b then _ else _] => destruct b
+           end;
+    cbn [ritems rrank crank];
+    repeat match goal with
+           | |- context [zlen ?l] => lazymatch goal with
+                                     | H0 : 0 <= zlen l |- _ => fail
+                                     | _ => pose proof (zlen_nonneg l)
+                                     end
+           end;
+    try lia.
+Qed.
+
+Lemma measure_nonneg : forall F s, inv F s -> 0 <= measure s.
+Proof.
+  intros F s [_ [_ [_ [_ [_ [_ [_ [_ Hce]]]]]]]]. unfold measure.
+  pose proof (inweight_nonneg (incoming s)).
+  assert (0 <= ritems (rp s)) by (destruct (rp s); cbn; try lia; apply zlen_nonneg).
+  assert (0 <= rrank (rp s)) by (destruct (rp s); cbn; lia).
+  assert (0 <= crank (cp s)) by (destruct (cp s); cbn; lia).
+  destruct (reply s); lia.
+Qed.
+
+(* a run in which every label moves *)
+Fixpoint run_eff (s : sys) (ls : list label) : option sys :=
+  match ls with
+  | [] => Some s
+  | l :: r => match step s l with Some s' => run_eff s' r | None => None end
+  end.
+
+Lemma run_eff_bound : forall ls s s', run_eff s ls = Some s' -> measure s' + Z.of_nat (length ls) <= measure s.
+Proof.
+  intros ls. induction ls as [|l r IH]; intros s s' H.
+  - cbn in H. inversion H; subst. cbn. lia.
+  - cbn [run_eff] in H. destruct (step s l) as [s1|] eqn:E; [|discriminate].
+    specialize (IH s1 s' H). pose proof (measure_step s l s1 E). cbn [length]. lia.
+Qed.
+
+(* ------------------------------------------------------------------ progress of Close *)
+
+(* no goroutine outside the system holds the read lock for good, the queue has room for everything that may still
+   come: as long as Close has not returned, somebody can move *)
+Lemma close_progress : forall s, inv 0 s -> room s -> closer_done s = false ->
+  exists l s', step s l = Some s'.
+Proof.
+  intros s [_ [Hrd [Hwh [Hwp [Hex [Hho [Hcl [Hpc Hce]]]]]]]] Hroom Hnd.
+  unfold closer_done in Hnd.
+  destruct (cp s) eqn:Ec; cbn [in_crit wants] in *.
+  - (* CStart *) exists LCloser. cbn [step]. unfold closer_step. rewrite Ec, Hwp, Hwh. cbn. eexists; reflexivity.
+  - exists LCloser. cbn [step]. unfold closer_step. rewrite Ec. eexists; reflexivity.
+  - (* CLogoutWait: the one-minute context expires at the latest *)
+    exists LLogoutTimeout. cbn [step]. rewrite Ec. eexists; reflexivity.
+  - exists LCloser. cbn [step]. unfold closer_step. rewrite Ec. eexists; reflexivity.
+  - (* CLockAcq: granted unless the reader holds the read lock, and then the reader can move *)
+    destruct (holds_r (rp s)) eqn:Eh.
+    + exists LReader. cbn [step]. unfold reader_step.
+      destruct (rp s) as [| | |m it|it|it|it| |] eqn:Er; cbn in Eh; try discriminate.
+      * eexists; reflexivity.
+      * destruct it as [|x r]; [eexists; reflexivity|].
+        assert (L : zlen (pq s) < pcap s).
+        { unfold room, pending in Hroom. rewrite Er in Hroom. cbn [ritems] in Hroom. rewrite zlen_cons in Hroom.
+          pose proof (zlen_nonneg r). pose proof (initems_nonneg (incoming s)). destruct (reply s); lia. }
+        apply Z.ltb_lt in L. rewrite L. eexists; reflexivity.
+      * eexists; reflexivity.
+    + exists LCloser. cbn [step]. unfold closer_step. rewrite Ec.
+      assert (E0 : rd s = 0) by lia. rewrite E0, Hwh. cbn. eexists; reflexivity.
+  - exists LCloser. cbn [step]. unfold closer_step. rewrite Ec. destruct (closed s); eexists; reflexivity.
+  - exists LCloser. cbn [step]. unfold closer_step. rewrite Ec. eexists; reflexivity.
+  - exists LCloser. cbn [step]. unfold closer_step. rewrite Ec. eexists; reflexivity.
+  - exists LCloser. cbn [step]. unfold closer_step. rewrite Ec. eexists; reflexivity.
+  - (* CDone: Close returned; Conn.Close goes on *)
+    apply negb_false_iff in Hnd. exists LCloser. cbn [step]. unfold closer_step. rewrite Ec, Hnd. eexists; reflexivity.
+  - exists LCloser. cbn [step]. unfold closer_step. rewrite Ec. eexists; reflexivity.
+  - exists LCloser. cbn [step]. unfold closer_step. rewrite Ec. eexists; reflexivity.
+  - discriminate.
+Qed.
+
+(* a state in which nobody can move stays as it is under every schedule *)
+Lemma stuck_forever : forall s, (forall l, step s l = None) -> forall ls, exec s ls = s.
+Proof.
+  intros s H ls. induction ls as [|l r IH]; [reflexivity|].
+  change (exec s (l :: r)) with (exec (exec1 s l) r). unfold exec1. rewrite (H l). exact IH.
+Qed.
+
+(* ------------------------------------------------------------------ after Close *)
+
+(* once the channel is marked closed it stays closed, and the package queue only ever loses packages (the drain):
+   the reader's WritePacket returns at its closed check, the logout's read lies before the mark *)
+Lemma closed_step : forall F s l s', inv F s -> closed s = true -> step s l = Some s' ->
+  closed s' = true /\ (pq s' = pq s \/ pq s' = []).
+Proof.
+  intros F s l s' [HF [Hrd [Hwh [Hwp [Hex [Hho [Hcl [Hpc Hce]]]]]]]] Hc H.
+  specialize (Hcl Hc).
+  destruct l; unfold step, reader_step, closer_step, set_r, set_c in H; crunch H;
+    cbn [closed pq];
+    repeat match goal with
+           | E : rp s = _ |- _ => rewrite E in *
+           | E : cp s = _ |- _ => rewrite E in *
+           end;
+    cbn [not_before_mark] in *; try discriminate; try congruence;
+    try (split; [assumption | (left; reflexivity) || (right; reflexivity)]);
+    try (split; [reflexivity | (left; reflexivity) || (right; reflexivity)]).
+Qed.
+
+Lemma closed_exec : forall F ls s, inv F s -> closed s = true ->
+  closed (exec s ls) = true /\ (pq (exec s ls) = pq s \/ pq (exec s ls) = []).
+Proof.
+  intros F ls. induction ls as [|l r IH]; intros s Hi Hc; [split; [exact Hc | left; reflexivity]|].
+  change (exec s (l :: r)) with (exec (exec1 s l) r). unfold exec1. destruct (step s l) as [s'|] eqn:E.
+  - destruct (closed_step F s l s' Hi Hc E) as [Hc' Hq].
+    destruct (IH s' (inv_step F s l s' Hi E) Hc') as [H1 H2]. split; [exact H1|].
+    destruct H2 as [H2|H2]; [|right; exact H2].
+    destruct Hq as [Hq|Hq]; [left; rewrite H2; exact Hq | right; rewrite H2; exact Hq].
+  - exact (IH s Hi Hc).
+Qed.
+
+(* ------------------------------------------------------------------ Conn.Close *)
+
+Lemma conn_closed_state : forall F s, inv F s -> cp s = KEnd -> closed s = true.
+Proof. intros F s [_ [_ [_ [_ [_ [_ [_ [Hpc _]]]]]]]] E. apply Hpc. rewrite E. reflexivity. Qed.
+
+(* a system started with an open, registered channel (sys0): where Close stands determines the flags *)
+Definition after_unreg (c : cpc) : bool :=
+  match c with CDrain | CUnlock | CDone _ | KCancel | KTClose | KEnd => true | _ => false end.
+Definition kinv (s : sys) : Prop :=
+  closed s = past_close (cp s) /\ registered s = negb (after_unreg (cp s)) /\
+  (cp s = KTClose \/ cp s = KEnd -> conn_done s = true) /\ (cp s = KEnd -> tclosed s = true).
+
+Lemma kinv_step : forall s l s', kinv s -> step s l = Some s' -> kinv s'.
+Proof.
+  intros s l s' [H1 [H2 [H3 H4]]] H.
+  destruct l; unfold step, reader_step, closer_step, set_r, set_c in H; crunch H;
+    unfold kinv; cbn [cp conn_done tclosed closed registered];
+    repeat match goal with
+           | E : cp s = _ |- _ => rewrite E in *
+           end;
+    cbn [past_close after_unreg negb] in *;
+    repeat split; try assumption; try reflexivity; try congruence;
+    try (intros [X|X]; discriminate X); try (intros X; discriminate X);
+    try (intros; apply H3; auto); try (intros; apply H4; auto).
+  all: try (destruct (kind0 s); cbn; try assumption; try (intros [X|X]; discriminate X); try (intros X; discriminate X)).
+  all: try (destruct (cfail s); cbn; try assumption; try (intros [X|X]; discriminate X); try (intros X; discriminate X)).
+Qed.
+
+Lemma kinv_exec : forall ls s, kinv s -> kinv (exec s ls).
+Proof.
+  intros ls. induction ls as [|l r IH]; intros s H; [exact H|].
+  change (exec s (l :: r)) with (exec (exec1 s l) r). apply IH. unfold exec1.
+  destruct (step s l) as [s'|] eqn:E; [exact (kinv_step s l s' H E) | exact H].
 Qed.
